@@ -8,10 +8,20 @@ open YaegiVerif.Const
 def reprFacts : ReprFacts :=
   { bitlen := [(.int, 64), (.int8, 8), (.int16, 16), (.int32, 32), (.int64, 64),
                (.uint, 64), (.uint8, 8), (.uint16, 16), (.uint32, 32), (.uint64, 64), (.uintptr, 64)],
-    pre := [(.int, .int64Val), (.int8, .int64Val), (.int16, .int64Val), (.int32, .int64Val), (.int64, .int64Val),
+    pre := [(.int, .int64Range), (.int8, .int64Range), (.int16, .int64Range), (.int32, .int64Range), (.int64, .int64Range),
             (.uint, .uint64Val), (.uint8, .uint64Val), (.uint16, .uint64Val), (.uint32, .uint64Val),
             (.uint64, .uint64Val), (.uintptr, .uint64Val)],
-    cmp := .le }
+    cmp := .le,
+    lo := .le,
+    hi := .le }
+
+/-- the signed arm as it was before the repair of F03 (`Int64Val` guard, then the final `BitLen` test): what the
+    extractor emits for a source in which the repair is reverted -/
+def reprFactsBefore : ReprFacts :=
+  { reprFacts with
+    pre := [(.int, .int64Val), (.int8, .int64Val), (.int16, .int64Val), (.int32, .int64Val), (.int64, .int64Val),
+            (.uint, .uint64Val), (.uint8, .uint64Val), (.uint16, .uint64Val), (.uint32, .uint64Val),
+            (.uint64, .uint64Val), (.uintptr, .uint64Val)] }
 
 /-- interp/cfg.go `constOp` -/
 def constOp : List (Act × String) :=
@@ -69,7 +79,7 @@ def facts : Facts := { repr := reprFacts, eval := evalFacts }
 
 /-- fingerprints (extract `FuncHash`) of the functions Model/Const*.lean were transcribed from -/
 def sourceHashes : List (String × String) :=
-  [("representableConst", "14bd0957f07491c0"),
+  [("representableConst", "2abe3a5d0e4e7f59"),
    ("typecheck.convertUntyped", "ccef1c7d32d3f9a2"),
    ("typecheck.representable", "c1d651a31cd9a487"),
    ("typecheck.convertConst", "592472b25770db96"),
